@@ -140,9 +140,10 @@ def encStr (s : Str) : Str := '"' :: escBody s ++ ['"']
 
 def insertKey {α} (p : Str × α) : List (Str × α) → List (Str × α)
   | [] => [p]
-  | q :: qs => if p.1 < q.1 then p :: q :: qs else q :: insertKey p qs
+  | q :: qs => if q.1 < p.1 then q :: insertKey p qs else p :: q :: qs
 
-/-- `sorted(dct.items())` — keys are unique, so only keys are compared; code-point order like Python `str` -/
+/-- `sorted(dct.items())` — keys are unique, so only keys are compared; code-point order like Python `str`;
+stable (an inserted pair goes before later pairs with an equal key) -/
 def sortKeys {α} : List (Str × α) → List (Str × α)
   | [] => []
   | p :: ps => insertKey p (sortKeys ps)
